@@ -163,4 +163,22 @@ PROPS = {
         "level_text": "Machine-checked Lean 4 theorems for every reachable state / every continuation: once closed always closed (C06_closed_forever); on a closed pool every acquisition step of get - blocking, timed, non-blocking, fresh, waiting, re-polled, at its deadline - ends in Closed and never obtains a slot (C06_get_after_close_fails); close empties the wait queue, i.e. wakes every waiter, which then completes with Closed (C06_close_wakes_all + C02_woken_completes); resize on a closed pool changes nothing; an object returned once max_size = 0 is discarded (detached, destroyed), not queued; a closed pool at rest whose shrink collected everything holds no object (C06_no_idle_after_close_partial). Two clauses are violated by the pinned code in rare thread-level interleavings (known findings `close-retains-idle`, `resize-races-close`): proved as witnesses (C06_witness_idle_retained, C06_witness_max_size), the first replayed on the real code on every run. Objects outliving every pool handle: Weak upgrade fails, return/take touch nothing of the pool (harness scenario, not modelled).",
         "level_note": "Known findings, see known_findings.txt; only violations that the model reproduces with the documented mechanism are attributed to them. Axioms: propext, Classical.choice, Quot.sound only.",
     },
+    "C04": {
+        "title": "Only freshly verified objects are handed out; errors surface exactly",
+        "modules": ["DeadpoolVerif.Props.C04"],
+        "theorems": [
+            "DeadpoolVerif.C04_handout_requires_all_ok", "DeadpoolVerif.C04_recycle_sequence_in_order",
+            "DeadpoolVerif.C04_recycle_sequence_starts_at_zero", "DeadpoolVerif.C04_post_create_in_order",
+            "DeadpoolVerif.C04_recycle_failure_discards", "DeadpoolVerif.C04_discard_path",
+            "DeadpoolVerif.C04_discarded_never_reissued", "DeadpoolVerif.C04_error_variants",
+            "DeadpoolVerif.run_conserve", "DeadpoolVerif.ops_forall_of_local",
+        ],
+        "projection": BASE + SEM + CNT + ["idle", "out", "live", "ev"],
+        "profiles": {"quick": [("faults", 900), ("cancel", 300), ("timeouts", 300)],
+                     "thorough": [("faults", 15000), ("cancel", 6000), ("timeouts", 6000), ("retain", 3000)]},
+        "monitor": "C04",
+        "design_ref": "DESIGN.md §6 C04",
+        "level_text": "Machine-checked Lean 4 theorems about the model's get(): an object reaches a caller only by the step in which the last callback of the sequence answers ok (C04_handout_requires_all_ok - the three hand-out situations are exhaustive); callbacks are entered in registration order, one after the ok of the previous one, on the same object with unchanged metrics, starting at index 0 when the object is popped (C04_recycle_sequence_*, C04_post_create_in_order); any failing / timed-out / cancelled / panicking recycling step sends exactly that object down the discard path - one detach, destruction - and a recycle error or timeout continues silently with `retry` (C04_recycle_failure_discards, C04_discard_path); a destroyed object is never in anybody's hands, idle or handed out in any continuation (C04_discarded_never_reissued, from the counting invariant Conserve for all reachable states); in every reachable state a failing get() is about to report only a documented variant with its documented cause, never a recycling error or Timeout(Recycle) (C04_error_variants, invariant). Tied to the code by the correspondence run on the full event stream (every callback with object id and metrics, detach, destroy, hand-out, result) and by a per-get grammar monitor over the real call log; outcomes are assigned to the n-th call of every callback with 0-2 hooks per kind, sync and async.",
+        "level_note": "The sequencing theorems are step-level (decision logic stated outright) plus reachable-state invariants; the trace-level reading (the event log of each get follows the grammar) is checked on the implementation's logs by the monitor. Axioms: propext, Classical.choice, Quot.sound only.",
+    },
 }
